@@ -423,6 +423,7 @@ def run_session(m, inst, fault=None, record=False, reuse=None):
         res["outcome"] = ("schema-ok", res["sdig"])
         return res
     cl = ConfigLoader(schema)
+    res["cl"] = cl
     inst.active = True
     st, val = load_top(cl, m.config_path, m.via if not armed_schema else "url")
     _probs(inst, "config", seen, res["problems"])
@@ -541,6 +542,8 @@ def check_scenario(spec, root, inst, acc, only_fault=None, verbose=False):
                                         "after": "fault-in-" + p["kind"], "exc": exc,
                                         "failed_in": res["failed_in"]},
                                   size=_size(spec, fault))
+                if spec.get("extra") is None and res["failed_in"] == "config":
+                    same_loader_reload(m, inst, acc, spec, fault, res, ff, verbose)
                 if verbose:
                     print("  fault %r -> %s; problems=%d; later load %s" % (
                         fault, oc, len(res["problems"]),
@@ -562,6 +565,28 @@ def check_scenario(spec, root, inst, acc, only_fault=None, verbose=False):
         sys.path_importer_cache.pop(d, None)
         purge_packages()
         shutil.rmtree(d, ignore_errors=True)
+
+
+def same_loader_reload(m, inst, acc, spec, fault, res, ff, verbose):
+    """Observation outside the outcome oracle (closure is still demanded): load again with the very
+    ConfigLoader instance whose load failed.  A ConfigLoader keeps a private derived schema after
+    the first %import; whether a failed load may leave it half-extended is not stated by the
+    property, so a differing outcome is only counted."""
+    inst.begin(None)
+    inst.active = True
+    st, val = load_top(res["cl"], m.config_path, m.via if m.family == "config" else "url")
+    probs = {"problems": []}
+    _probs(inst, "config", set(), probs["problems"])
+    inst.active = False
+    report_problems(acc, spec, fault, probs, "reload-with-the-failed-ConfigLoader")
+    cfg = ("ok", tree(val[0])) if st == "ok" else ("raised", val)
+    if cfg == ff[2]:
+        acc.extra["observed_reload_with_failed_ConfigLoader_same_outcome"] += 1
+    else:
+        acc.extra["observed_reload_with_failed_ConfigLoader_differs_after_fault_in_" + fault[0]] += 1
+        if verbose:
+            print("  (observation) reload with the failed ConfigLoader instance differs:", cfg[0],
+                  cfg[1] if cfg[0] == "raised" else "")
 
 
 def shard_func(shard, acc):
